@@ -680,7 +680,7 @@ func (p *pkgInfo) layoutOf(typ, dir string, prefix []string, l *layout) {
 		p.rreaddir(fd, dir, l)
 		return
 	}
-	stmts := fd.Body.List
+	stmts := p.inlineHelpers(fd.Body.List)
 	for i := 0; i < len(stmts); i++ {
 		st := stmts[i]
 		if dir == "encode" {
@@ -1378,4 +1378,107 @@ func elemLoop(st ast.Stmt) (elem string, body *ast.BlockStmt, xs ast.Expr, ok bo
 		return norm(src(call.Args[0])) + "[" + i + "]", l.Body, call.Args[0], true
 	}
 	return
+}
+
+// inlineHelpers replaces `helper(b, x)` and `x = helper(b, x)` statements, where helper is a
+// package-level function with a body, by the helper's statements with its parameters replaced by
+// the argument expressions (a trailing `return e` becomes `x = e`).  The codec reader then sees
+// what it would see had the helper never been extracted.
+func (p *pkgInfo) inlineHelpers(stmts []ast.Stmt) []ast.Stmt {
+	var out []ast.Stmt
+	for _, st := range stmts {
+		var call *ast.CallExpr
+		target := ""
+		switch x := st.(type) {
+		case *ast.ExprStmt:
+			call, _ = x.X.(*ast.CallExpr)
+		case *ast.AssignStmt:
+			if x.Tok == token.ASSIGN && len(x.Lhs) == 1 && len(x.Rhs) == 1 {
+				call, _ = x.Rhs[0].(*ast.CallExpr)
+				target = norm(src(x.Lhs[0]))
+			}
+		}
+		if call != nil {
+			if id, ok := call.Fun.(*ast.Ident); ok {
+				if h := p.funcs[id.Name]; h != nil && h.Recv == nil && h.Body != nil {
+					if sub, ok := substituteHelper(h, call.Args, target); ok {
+						out = append(out, p.inlineHelpers(sub)...)
+						continue
+					}
+				}
+			}
+		}
+		out = append(out, st)
+	}
+	return out
+}
+
+func substituteHelper(h *ast.FuncDecl, args []ast.Expr, target string) ([]ast.Stmt, bool) {
+	var params []string
+	if h.Type.Params != nil {
+		for _, f := range h.Type.Params.List {
+			for _, n := range f.Names {
+				params = append(params, n.Name)
+			}
+		}
+	}
+	if len(params) != len(args) {
+		return nil, false
+	}
+	ren := map[string]string{}
+	for i, a := range args {
+		ren[params[i]] = norm(src(a))
+	}
+	// a private copy of the helper (parsed from its own text), identifiers replaced in place
+	f, err := parser.ParseFile(token.NewFileSet(), "h.go", "package x\n"+src(h), 0)
+	if err != nil {
+		return nil, false
+	}
+	hc := f.Decls[0].(*ast.FuncDecl)
+	skip := map[*ast.Ident]bool{}
+	ast.Inspect(hc.Body, func(m ast.Node) bool {
+		switch x := m.(type) {
+		case *ast.SelectorExpr:
+			skip[x.Sel] = true
+		case *ast.KeyValueExpr:
+			if id, ok := x.Key.(*ast.Ident); ok {
+				skip[id] = true
+			}
+		}
+		return true
+	})
+	ast.Inspect(hc.Body, func(m ast.Node) bool {
+		if id, ok := m.(*ast.Ident); ok && !skip[id] {
+			if r, ok := ren[id.Name]; ok {
+				id.Name = r
+			}
+		}
+		return true
+	})
+	var lines []string
+	for i, st := range hc.Body.List {
+		if r, ok := st.(*ast.ReturnStmt); ok {
+			if i != len(hc.Body.List)-1 {
+				return nil, false
+			}
+			if len(r.Results) == 1 && target != "" {
+				var sb strings.Builder
+				printer.Fprint(&sb, token.NewFileSet(), r.Results[0])
+				if e := norm(sb.String()); e != target {
+					lines = append(lines, target+" = "+e)
+				}
+			} else if len(r.Results) != 0 {
+				return nil, false
+			}
+			continue
+		}
+		var sb strings.Builder
+		printer.Fprint(&sb, token.NewFileSet(), st)
+		lines = append(lines, sb.String())
+	}
+	nf, err := parser.ParseFile(fset, "inlined.go", "package x\nfunc _() {\n"+strings.Join(lines, "\n")+"\n}\n", 0)
+	if err != nil {
+		return nil, false
+	}
+	return nf.Decls[0].(*ast.FuncDecl).Body.List, true
 }
